@@ -39,6 +39,16 @@ def units(tier, seed):
         for mx in (False, True):
             descs.append(dict(engines=list(eng), gens=2, gsc=gs[k % len(gs)], Mh=4, seed=s, obj="infhole", maximize=mx, sprout={"kind": ("simple", "nbc")[k % 2], "L": 2},
                               cutoff=([25, 20] if k % 4 == 0 else None)))
+    # other local methods than the default (simplex, direction-set, SQP, trust region ...), optimum in a corner of the box / flat
+    # objective; user-assembled engines, one of which evaluates through the problem its ea_class was created with
+    for k, m in enumerate(["Nelder-Mead", "Powell", "trust-constr", "L-BFGS-B"]):  # TNC, SLSQP, COBYLA: pyhms' callback signature is not supported by scipy for them (AttributeError)
+        for j, eng in enumerate([("SEA", "LOC"), ("LHS", "DE", "LOC")]):
+            descs.append(dict(engines=list(eng), gens=1, gsc=gs[(k + j) % len(gs)], Mh=3, seed=s + k, obj=("lin_corner", "sphere_in", "plateau")[(k + j) % 3], loc_method=m, loc_maxiter=(150, 5)[j], maximize=bool((k + j) % 2),
+                              sprout={"kind": "simple", "L": 2}, box=("B_asym", "B_sym")[j]))
+    for k, eng in enumerate([("UEAi",), ("UEAi", "DE"), ("SEA", "UEAi"), ("UEA3", "UEAm"), ("UEAm", "UEAi", "LOC"), ("LHS", "UEA3")]):
+        for j in range(2):
+            descs.append(dict(engines=list(eng), gens=1 + j, gsc=gs[(k + j) % len(gs)], Mh=4, seed=s + k, levelshift=True, obj=("twofunnel", "sphere_in")[j], maximize=bool(j),
+                              sprout={"kind": ("simple", "nbc")[j], "L": 2}, hib=bool(k % 2)))
     us = [{"kind": "run", "descs": c} for c in chunks(descs, 12)]
     us.append({"kind": "minimize-both", "seed": s})
     us.append({"kind": "minimize-long", "seed": s})
